@@ -240,6 +240,12 @@ pub fn witness_cases(cfg: &Cfg, tier: Tier) -> Vec<(String, Wit)> {
         w.seed = Some(seed_scalar(0));
         w.promises[0] = Some(base.values[0]);
         out.push(("seed0,promise=value".to_string(), w));
+        // the corners of the scalar field are seeds like any other
+        for (name, sd) in [("zero", Scalar::ZERO), ("one", Scalar::ONE), ("l-1", -Scalar::ONE)] {
+            let mut w = base.clone();
+            w.seed = Some(sd);
+            out.push((format!("seed={}", name), w));
+        }
     }
     // full product of values x promises for tiny spaces
     if cfg.big_n() <= 4 && cfg.c == cfg.m && cfg.d == 1 {
